@@ -13,17 +13,22 @@ pub struct Counting {
     inner: Cursor<Rc<Vec<u8>>>,
     pub seeks: Rc<Cell<u64>>,
     pub bytes: Rc<Cell<u64>>,
+    /// at most this many bytes are served per read call (a small BufReader-like source)
+    pub max_read: usize,
 }
 impl Counting {
     pub fn new(data: Vec<u8>) -> Counting {
-        Counting { inner: Cursor::new(Rc::new(data)), seeks: Rc::new(Cell::new(0)), bytes: Rc::new(Cell::new(0)) }
+        Counting { inner: Cursor::new(Rc::new(data)), seeks: Rc::new(Cell::new(0)), bytes: Rc::new(Cell::new(0)), max_read: usize::MAX }
+    }
+    pub fn short(data: Vec<u8>, max_read: usize) -> Counting {
+        Counting { max_read, ..Counting::new(data) }
     }
 }
 impl Read for Counting {
     fn read(&mut self, buf: &mut [u8]) -> io::Result<usize> {
         let pos = self.inner.position() as usize;
         let data = self.inner.get_ref();
-        let n = buf.len().min(data.len().saturating_sub(pos));
+        let n = buf.len().min(data.len().saturating_sub(pos)).min(self.max_read);
         buf[..n].copy_from_slice(&data[pos..pos + n]);
         self.inner.set_position((pos + n) as u64);
         self.bytes.set(self.bytes.get() + n as u64);
@@ -186,7 +191,8 @@ pub fn run_history_on<R: Read + Seek + Clone>(src: R, ops: &[(usize, Op)]) -> Re
 
 /// Runs a history on the real cursor(s); one output line per operation.
 pub fn run_history(file: &[u8], ops: &[(usize, Op)], with_fp: bool) -> Result<Vec<String>, String> {
-    let src = Counting::new(file.to_vec());
+    // every third file is served by a source returning at most 7 bytes per read call
+    let src = if fnv(file) % 3 == 0 { Counting::short(file.to_vec(), 7) } else { Counting::new(file.to_vec()) };
     let seeks = src.seeks.clone();
     let reader = match catch(|| Reader::new(src)) {
         Ok(Ok(r)) => r,
@@ -411,6 +417,29 @@ pub fn generate<W: Write>(c: &mut Cases<W>, rng: &mut Rng, thorough: bool, which
             emit_hist(c, &cfg, &es, &f, &ops, true);
         }
     }
+    if which == "C10" {
+        for i in 0..400u64 {
+            let root = if i % 3 == 0 { rng.next() } else { rng.below(1 << 20) };
+            let count = match i % 4 { 0 => rng.next(), 1 => (1u64 << 32) + rng.below(9), 2 => u64::MAX - rng.below(3), _ => rng.below(1000) };
+            let codec = (i % 8) as u8;
+            let mut t = vec![0xEEu8; (i % 5) as usize];
+            t.extend_from_slice(&root.to_le_bytes());
+            t.push(codec);
+            t.extend_from_slice(&count.to_le_bytes());
+            t.extend_from_slice(&0x76324D4Cu32.to_le_bytes());
+            let res = match catch(|| Reader::new(Cursor::new(&t[..])).map(|r| (r.file_version() as u32, r.compression_type() as u8, r.len()))) {
+                Ok(Ok((v, cd, n))) => format!("ok {} {} {}", v, cd, n),
+                Ok(Err(e)) => format!("err {}", err_class(&e)),
+                Err(_) => "panic".to_string(),
+            };
+            c.begin("open");
+            c.line(&format!("len {}", t.len()));
+            c.line(&format!("tail {}", hex(&t)));
+            c.line(&format!("res {}", res));
+            c.line(&format!("v1 {} {}", codec, count));
+            c.end();
+        }
+    }
     let mut deep_files = 0u64;
     for i in 0..nfiles {
         let deep = which != "C10" && i % 4 != 3;
@@ -444,6 +473,10 @@ pub fn generate<W: Write>(c: &mut Cases<W>, rng: &mut Rng, thorough: bool, which
 }
 
 // ------------------------------------------------------------------ iterators (C04 / C05)
+fn mk_src(file: &[u8]) -> Counting {
+    if fnv(file) % 3 == 0 { Counting::short(file.to_vec(), 5) } else { Counting::new(file.to_vec()) }
+}
+
 fn bound_str(b: &Bound<Vec<u8>>) -> String {
     match b {
         Bound::Unbounded => "u -".to_string(),
@@ -510,10 +543,10 @@ pub fn generate_iter<W: Write>(c: &mut Cases<W>, rng: &mut Rng, thorough: bool, 
                 let hi = mk(rng, ((j / 3) % 3) as u64, b);
                 let rev = rng.chance(1, 2);
                 let res = if rev {
-                    let mut it = Reader::new(Cursor::new(&file[..])).unwrap().into_rev_range_iter((lo.clone(), hi.clone())).unwrap();
+                    let mut it = Reader::new(mk_src(&file)).unwrap().into_rev_range_iter((lo.clone(), hi.clone())).unwrap();
                     collect_iter(|| it.next().map(|o| o.map(|(k, v)| (k.to_vec(), v.to_vec()))).map_err(|e| err_class(&e)))
                 } else {
-                    let mut it = Reader::new(Cursor::new(&file[..])).unwrap().into_range_iter((lo.clone(), hi.clone())).unwrap();
+                    let mut it = Reader::new(mk_src(&file)).unwrap().into_range_iter((lo.clone(), hi.clone())).unwrap();
                     collect_iter(|| it.next().map(|o| o.map(|(k, v)| (k.to_vec(), v.to_vec()))).map_err(|e| err_class(&e)))
                 };
                 let l = format!("q range {} {} {} = {}", bound_str(&lo), bound_str(&hi), if rev { "rev" } else { "fwd" }, res);
@@ -536,10 +569,10 @@ pub fn generate_iter<W: Write>(c: &mut Cases<W>, rng: &mut Rng, thorough: bool, 
                 };
                 let rev = rng.chance(1, 2);
                 let res = if rev {
-                    let mut it = Reader::new(Cursor::new(&file[..])).unwrap().into_rev_prefix_iter(p.clone()).unwrap();
+                    let mut it = Reader::new(mk_src(&file)).unwrap().into_rev_prefix_iter(p.clone()).unwrap();
                     collect_iter(|| it.next().map(|o| o.map(|(k, v)| (k.to_vec(), v.to_vec()))).map_err(|e| err_class(&e)))
                 } else {
-                    let mut it = Reader::new(Cursor::new(&file[..])).unwrap().into_prefix_iter(p.clone()).unwrap();
+                    let mut it = Reader::new(mk_src(&file)).unwrap().into_prefix_iter(p.clone()).unwrap();
                     collect_iter(|| it.next().map(|o| o.map(|(k, v)| (k.to_vec(), v.to_vec()))).map_err(|e| err_class(&e)))
                 };
                 let l = format!("q prefix {} {} = {}", hex(&p), if rev { "rev" } else { "fwd" }, res);
